@@ -283,7 +283,12 @@ pub fn json_image(v: &SVal) -> Option<Value> {
 // ------------------------------------------------------------------------------------------
 // generator
 
-const NAMES: [&str; 6] = ["T", "Event", "Kind", "a", "b", "facts"];
+// (type names carry no meaning for the image: also names that coincide with reval's own value kinds and with the
+// private marker names some formats use)
+const NAMES: [&str; 16] = [
+    "T", "Event", "Kind", "a", "b", "facts", "Duration", "Decimal", "DateTime", "Value", "Int", "None", "Option", "String",
+    "$serde_json::private::Number", "$serde_json::private::RawValue",
+];
 const FIELDS: [&str; 8] = ["a", "b", "id", "name", "facts", "vi", "vm", "a"];
 
 fn name(d: &mut Dec) -> String {
